@@ -1214,6 +1214,25 @@ def send_or_wait_outcomes(chk, P, prefix):
         i, (op, l, r) = exp
         if op not in ("Ge", "Gt") or not (mir.o_root(r)[0] in ("capture", "param")):
             return False, "the expiry test is `elapsed %s %s`, not `elapsed >= timeout`" % (op, o_str(r)), [], b.blocks[i]["term"].get("loc") or b.span
+        # once expired the call returns: from the expired edge neither another wait nor another attempt is reachable
+        t = b.blocks[i]["term"]
+        so, pos = mir.norm_bool(b.switch_origin(i))
+        neg = 0
+        x = b.switch_origin(i)
+        while x[0] == "unop" and x[1] == "Not":
+            x = x[2]
+            neg += 1
+        true_targets = [nb for v, nb in ([(v, nb) for v, nb in t["targets"]] + [("otherwise", t["otherwise"])]) if (str(v) != "0") == (neg % 2 == 0)]
+        # the waiting callback: the other caller-supplied callable invoked in the loop (not the elapsed-time one the test reads)
+        elapsed_root = mir.o_root(b.origin(l[1].args[0])) if l[0] == "call" and l[1].args else None
+        waits = [c for c in b.calls(normal_only=True) if c.callee.get("name") in ("call_mut", "call", "call_once") and c.args and b.in_cycle(c.bb)
+                 and mir.o_root(b.origin(c.args[0]))[0] in ("capture", "param") and mir.o_root(b.origin(c.args[0])) != elapsed_root]
+        for tt in true_targets:
+            reach = b.reachable_from(tt)
+            later = [c for c in waits + ts if c.bb in reach]
+            if later:
+                return False, ("after the timeout has expired send_or_wait can still reach %s at %s instead of returning the item: a blocking send "
+                               "would outlast its timeout (forever, if the queue stays full)" % (later[0].callee.get("name"), later[0].loc)), [], later[0].loc
         return True, "", rets
     chk.ob("%s.R3:send_or_wait-outcomes" % prefix, "Ok only when a try_send succeeded; the item is handed back once elapsed() >= timeout", f)
 
